@@ -3,6 +3,8 @@
    3   : calcPGMinResources (spec with requests / priorities) -> pods cpu mem
    4   : createOrUpdatePodGroup: create for spec0, then a second call for spec1 with a fresh / empty /
          orphaned lister copy and an optionally refused write -> error flag, PodGroup
+   6   : createJobPod for all missing replicas of a task, built in one pass as syncJob does -> per-pod fields
+   211 : every created pod carries the fields of its own (task, index)
    5   : histories with refused PodGroup writes: laws only (the world model does not carry the PodGroup spec)
    208 : successful sync leaves a mirroring PodGroup   209 : refused PodGroup write = error, no pod touched
    210 : createOrUpdatePodGroup call law
@@ -26,10 +28,17 @@ Definition dStepCase : dec (spec * req * bool * bool * obs * obs) :=
   let* sp := dSpec in let* rf := dReq in let* fresh := dBool in let* pgv := dBool in
   let* b := dObs in let* a := dObs in ret (sp, fst rf, fresh, pgv, b, a).
 
+Definition ePodFields (p : pod_fields) : list Z :=
+  [Zpos (pf_task p); pf_idx p; Zpos (pf_lbl_task p); pf_lbl_idx p; pf_version p; pf_retry p; pf_user_lbl p; pf_user_ann p].
+Definition dPodFields : dec pod_fields :=
+  let* a := dPos in let* b := dZ in let* c := dPos in let* d := dZ in let* e := dZ in let* f := dZ in let* g := dZ in let* h := dZ in
+  ret (mkPF a b c d e f g h).
+
 Definition dMarkers : dec markers :=
   let* a := dZ in let* b := dZ in let* c := dZ in let* d := dZ in let* e := dZ in let* f := dZ in
   let* g := dBool in let* h := dBool in let* i := dBool in let* j := dBool in let* k := dBool in
-  ret (mkM a b c d e f g h i j k).
+  let* ul := dZ in let* ua := dZ in let* sh := dBool in
+  ret (mkM a b c d e f g h i j k ul ua sh).
 
 Definition entry (sel : Z) (toks : list Z) : list Z :=
   match sel with
@@ -58,9 +67,23 @@ Definition entry (sel : Z) (toks : list Z) : list Z :=
            | Some (a1, a2) => eBool (law_idem_counters a1 a2) | None => bad_input end
   | 203 => match run_dec (dPair dPods dPods) toks with
            | Some (x, y) => eBool (law_crash x y) | None => bad_input end
-  | 204 => match run_dec (let* t := dPos in let* i := dZ in let* v := dZ in let* r := dZ in let* m := dMarkers in
-                          ret (t, i, v, r, m)) toks with
-           | Some (t, i, v, r, m) => eBool (law_markers t i v r m) | None => bad_input end
+  | 204 => match run_dec (let* t := dPos in let* i := dZ in let* v := dZ in let* r := dZ in let* cpu := dZ in let* mem := dZ in
+                          let* m := dMarkers in ret (t, i, v, r, cpu, mem, m)) toks with
+           | Some (t, i, v, r, cpu, mem, m) => eBool (law_markers t i v r cpu mem m) | None => bad_input end
+  | 6 => match run_dec (let* sx := dSpecX in let* v := dZ in let* r := dZ in let* k := dNat in let* idx := dList dZ in
+                        ret (sx, v, r, k, idx)) toks with
+         | Some ((sp, xs), v, r, k, idx) =>
+             match nth_error (combine (s_tasks sp) xs) k with
+             | Some (t, x) => eList ePodFields (create_task_pods v r t x idx)
+             | None => bad_input end
+         | None => bad_input end
+  | 211 => match run_dec (let* sx := dSpecX in let* v := dZ in let* r := dZ in let* k := dNat in let* idx := dList dZ in
+                          let* got := dList dPodFields in ret (sx, v, r, k, idx, got)) toks with
+           | Some ((sp, xs), v, r, k, idx, got) =>
+               match nth_error (combine (s_tasks sp) xs) k with
+               | Some (t, x) => eBool (law_created_pods v r t x idx got)
+               | None => bad_input end
+           | None => bad_input end
   | 205 => match run_dec (let* sx := dSpecX in let* jp := dZ in let* q := dBool in let* g := dPG in ret (sx, jp, q, g)) toks with
            | Some ((sp, xs), jp, q, g) => eBool (law_pg sp xs jp q g) | None => bad_input end
   | 208 => match run_dec (let* sx := dSpecX in let* rf := dReq in let* f1 := dBool in let* f2 := dBool in let* f3 := dBool in
